@@ -19,4 +19,67 @@ PROPS = {
             "math.Log2/Ceil/Floor/Pow steps of New equal the integer functions of the model (checked on every generated configuration)",
         ],
     },
+    "C01": {
+        "streams": ["core"],
+        "rule": "core: fixed regression corpus; every delta matrix with entries in {0,+1,-1} and m*n <= 6 (thorough: 8) over rotating "
+                "constructors; random schema trees (depth <= 4, fan-out <= 4, all 20 BSON element types, arrays in documents in arrays) with "
+                "per-leaf boundary values and delta patterns, every compressing constructor, N in {1,2,3,7,len,len+1}. Distinct = distinct case line.",
+        "level_text": "Theorems (Props/C01.lean) for all inputs: varint round trip for every uint64, zero-run stream round trip for every delta list "
+                      "(runs crossing metric boundaries), wrapping delta round trip, bit-exact leaf normalisation (bool, int32, double, timestamp words, "
+                      "datetime in the nanosecond range), and restoration of any document tree from its extracted values = the document with non-metric "
+                      "leaves removed. The model (collectors -> payload -> decoder -> structured documents) is run against the implementation on every case.",
+        "level_note": "Partial: the composition of the layers through the BSON byte serialiser/parser (parse(ser d) = d) is exercised by the correspondence run, "
+                      "not yet proved. The timestamp clause is false of the code (known finding F1, pinned by an existing unit test): its negation is proved "
+                      "(timestamp_clause_false) and the oracle classifies exactly that deviation as the known finding. Trusted: zlib (external), Lean kernel, harness.",
+        "assumptions": ["inflate(deflate x) = x (compress/zlib is external)", "birch parses every document the strict validator accepts as the model's parser does"],
+    },
+    "C02": {
+        "streams": ["views"],
+        "rule": "views: schemas biased to nesting >= 2, sibling sub-documents at depth 4, arrays in documents in arrays, second schema in the same stream; "
+                "all six reader entry points on the same bytes. Oracle: keys = independent full-path walk over the reference documents, pairwise agreement of "
+                "table, flattened, structured, per-chunk, matrix and series views incl. BSON types. Distinct = distinct byte stream.",
+        "level_text": "Theorem keys_are_full_paths: for every document tree the decoder's metric keys are the dot-joined paths of every enclosing field name and "
+                      "array index (specification leafPaths written from the property text), in document order; one series per leaf; every view has the table's "
+                      "keys, order and sample count (the views are functions of the one table in the model, and that model is diffed against all six entry points).",
+        "level_note": "Key uniqueness (injectivity of the dot-join on dot-free segments) is checked by the oracle on every case, not yet a theorem. "
+                      "ReadSeries order was nondeterministic before fix F3; metric paths lost segments before fix F2.",
+        "assumptions": ["keys without '.'"],
+    },
+    "C03": {
+        "streams": ["core", "wire-dec"],
+        "rule": "core (encode direction): the library's bytes are parsed with an independent strict BSON walker and compress/zlib; header fields, field order, "
+                "length prefix, no trailing bytes are checked and the inflated payload is compared byte for byte with the payload the Lean model emits. "
+                "wire-dec (decode direction): streams from an independent reference encoder (split zero runs, runs crossing metric boundaries, type as "
+                "int32/int64/double, unknown types, interleaved metadata, zlib levels incl. stored, extra top-level fields) decoded by library and model.",
+        "level_text": "Theorems (Props/C03.lean): decoder_complete_deltas — every spec-conformant token stream (any splitting/placement of zero runs) decodes to "
+                      "the deltas it denotes; encoder_stream_roundtrip; payload layout; type field of any BSON number type; unknown types skipped; metadata "
+                      "documents only replace the current metadata. Byte-exact canonical payload is decided by the correspondence (model payload = library payload).",
+        "level_note": "Partial: maximality of the encoder's zero runs and 'reference verbatim' are established by byte equality with the model on every case, "
+                      "not by a separate theorem. Timestamp decoding: known finding F1.",
+        "assumptions": ["inflate(deflate x) = x"],
+    },
+    "C04": {
+        "streams": ["fuzz"],
+        "rule": "fuzz (child process, watchdog 20 s): every prefix of valid streams, byte substitution/insertion/deletion at every offset (quick: <= 400 offsets per "
+                "stream) of the outer documents and of the re-compressed payload, perturbed size/count fields, corrupt zlib header/body/checksum/truncation, "
+                "missing/short/retyped data field, seeded multi-byte mutation; all five entry points. Distinct = distinct byte string.",
+        "level_text": "Theorems (Props/C04.lean) for all byte strings and all inflate functions: refinement of the reader to a sequential fold over framed documents; "
+                      "a stream cut inside a document or with a bad size word reports an error; chunks wholly before the damage are delivered (prefix theorem); "
+                      "errors are sticky; every damaged-chunk class yields an error. Totality: the model is a total Lean function (termination checked).",
+        "level_note": "The model has no panic outcome because the repaired readers validate input and recover; 'no crash/no hang' of the real process is observed by "
+                      "the isolated fuzz run. Sample counts above 65536 per metric in a mutant are not explored (minutes-long loops; allocation is not modelled).",
+        "assumptions": ["birch parses every document the strict validator accepts", "inflate is a function of the compressed bytes"],
+    },
+    "C11": {
+        "streams": ["meta"],
+        "rule": "meta: streams with zero, one or several metadata documents (type as int32/int64/double incl. -0.0) interleaved with chunks from the reference "
+                "encoder and from every real collector with SetMetadata; Metadata() read after every Next of the chunk, document, matrix and series iterators. "
+                "Distinct = distinct byte stream.",
+        "level_text": "Theorems (Props/C11.lean): chunk_metadata_is_latest — for every stream of framed documents the chunk decoded from a document carries the most "
+                      "recent preceding metadata document (none => nil); write side: metadata emitted as its own type-0 document ahead of the chunk, never in the "
+                      "payload, replaced by a later SetMetadata, kept across Add/Reset.",
+        "level_note": "Iterator clause: items carry their chunk's metadata through the worker pipe (fix F11); the schedule-independence of that pairing is part of "
+                      "the pipeline model (C05/C06). Collector histories with SetMetadata at every position are explored by the hist stream of C07.",
+        "assumptions": [],
+    },
 }
